@@ -41,7 +41,7 @@ func genGrp(a hx.Args) {
 	r := hx.NewRng(a.Seed)
 	n := a.N(150, 1500)
 	for i := 0; i < n; i++ {
-		bal := r.Intn(5)
+		bal := hx.Pick(r, []int{0, 1, 2, 3, 3, 4, 4, 4}) // KIP-848 (4) and cooperative (3) weigh more: they have the larger protocols
 		parts := 2 + r.Intn(6)
 		brokers := 1 + r.Intn(2)
 		slots := 2 + r.Intn(3)
@@ -203,7 +203,7 @@ func runGrp(t *testing.T, tk []string) string {
 		copts = append(copts, kfake.BrokerConfigs(map[string]string{"group.consumer.session.timeout.ms": "6000"}))
 	}
 	slowRevoke := false
-	if bal == 4 && seed%2 == 0 {
+	if bal == 4 && seed%3 != 0 {
 		// KIP-848 with a short broker-side heartbeat interval and revoke callbacks that outlast it: the member keeps
 		// heartbeating while it revokes, and the coordinator must not hand the partitions on before the callback is done
 		copts = append(copts, kfake.BrokerConfigs(map[string]string{"group.consumer.heartbeat.interval.ms": "200"}))
